@@ -130,6 +130,28 @@ func c01Check(c *ctx, cs c01Case, msg *ast.DataMessage) {
 		c.Violation("C01/round-trip-differs/"+feat, diff+" msg="+clipS(ref.PrintMsg(m)), cs)
 		return
 	}
+	// a receive loop: the frame is decoded from a buffer, the buffer is refilled with the next frame (same message,
+	// other session id and system bytes) and decoded again; the first decoded message still is what was sent first
+	if len(b) <= 4096 && rng.Hash64(b)%3 == 0 {
+		buf := make([]byte, len(b), len(b)+32)
+		copy(buf, b)
+		first, ok1, _ := hsmsParse(buf)
+		for _, i := range []int{4, 5, 10, 11, 12, 13} {
+			buf[i] ^= 0x5A
+		}
+		second, ok2, _ := hsmsParse(buf)
+		for i := range buf {
+			buf[i] = 0xEE
+		}
+		c.Class("receive-buffer-reused")
+		if fm, isD := first.(*ast.DataMessage); !ok1 || !ok2 || !isD || second == nil {
+			c.Violation("C01/receive-buffer-reused/decode-fails", fmt.Sprintf("ok %v %v msg=%s", ok1, ok2, clipS(ref.PrintMsg(m))), cs)
+			return
+		} else if dd := real.Snap(fm).Diff(d); dd != "" {
+			c.Violation("C01/receive-buffer-reused/first-message-changed", fmt.Sprintf("after the buffer was refilled and decoded again the first decoded message differs from what was sent: %s msg=%s", dd, clipS(ref.PrintMsg(m))), cs)
+			return
+		}
+	}
 	// a message derived from an already encoded one must encode its own fields (not a memo of its parent's bytes)
 	if src != "decoder" && src != "restamped" {
 		r := rng.New(rng.Hash64(b))
@@ -280,7 +302,7 @@ func c01Template(g *gen.G) (tpl *ref.Item, counts map[string]int, sub map[string
 				if x.AMax == -1 {
 					n += g.R.Intn(6)
 				} else if x.AMax > x.AMin {
-					n += g.R.Intn(x.AMax - x.AMin + 1)
+					n += g.R.Intn(spanCap(x.AMax-x.AMin) + 1)
 				}
 				s := g.ASCII(n)
 				sub[x.AVar] = ref.Val{Str: s, IsS: true}
@@ -470,7 +492,7 @@ func runC01(c *ctx) {
 	}
 	g := gen.New(r, gen.Profile{})
 	c01Eval(c, c01Case{Source: "constructors", Msg: g.Msg(&ref.Item{Kind: ref.L, Children: []*ref.Item{all, allA}}, true)})
-	c.Required = []string{"source/constructors", "source/template", "source/sml", "source/decoder", "source/restamped", "lists-of-empty-items", "items-at-the-size-limit", "message-longer-than-16MiB", "nesting-chain", "nesting-chain-with-siblings", "shape/maxlenbytes=2", "shape/maxlenbytes=3"}
+	c.Required = []string{"source/constructors", "source/template", "source/sml", "source/decoder", "source/restamped", "lists-of-empty-items", "items-at-the-size-limit", "message-longer-than-16MiB", "receive-buffer-reused", "nesting-chain", "nesting-chain-with-siblings", "shape/maxlenbytes=2", "shape/maxlenbytes=3"}
 }
 
 func replayC01(c *ctx, raw json.RawMessage) {
